@@ -79,6 +79,20 @@ CHECKS = {
    note='Trusted: clang front end; correctly rounded host printf and C literal parsing; union same-size type punning. '
         'Not decided: the run-time value the C compiler assigns to the literal.',
    ref='DESIGN.md 4/C07'),
+ 'C10': dict(
+   technique='whole-translator AST rules: worst-case sprintf length from format + value ranges of promoted arguments vs destination array; source-derived-from-destination analysis for restrict copies; branch-sensitive structured must-analysis (facts from comparison outcomes, killed by writes and callee field mod-sets) for raw Buffer.data access and for interprocedural may-be-NULL flows',
+   text='Over all 14 translator sources (about 600 function definitions): every sprintf into a fixed array fits for every argument value '
+        '(e.g. %02X of a promoted plain char counts 8 digits); no strcpy/strcat/strncpy/memcpy/sprintf gets a source that points into its '
+        'destination (basename/dirname/strchr results, pointer arithmetic, locals initialised that way); every raw read through Buffer.data '
+        '(dereference, memcpy/strncpy/memcmp/SHA1 source, snapshot pointers) and every bufferSkipUnchecked is dominated by a comparison '
+        'of the accessed length with the same buffer\'s length whose failing edge leaves the path (the consumed-bytes adjustment in the code '
+        'section reader is recognised as an idiom); pointers flowing interprocedurally from the two locations the code itself treats as '
+        'possibly NULL (writer-task debugLines, per-function name slots) are never dereferenced or passed to a library function without a '
+        'dominating NULL test; hex escapes of name bytes format an unsigned byte. These are necessary conditions of memory safety.',
+   note='Not decided: termination and memory safety for every module as a whole (index arithmetic on type/label stacks relies on module '
+        'validity), allocation failure, PATH_MAX-sized path copies (axiom), libdwarf-only consumers. Distinct access paths in one function '
+        'are assumed not to alias.',
+   ref='DESIGN.md 4/C10'),
  'C11': dict(
    technique='type-based undefined-behaviour rules over the typed AST of every extracted statement template and reached w2c2_base.h function (signed arithmetic, shift counts, division guards, float-to-int guards, typed memory dereference); compile witness (gcc and clang syntax+type checking of one TU of all templates in GNU C89..C17); C lexing of emitted string literals',
    text='About 650 statement templates (every opcode row of the dispatch table in both formatting modes, memory/atomic variants, '
